@@ -188,6 +188,9 @@ def judge_scope(p, res):
 KERNELS = {
     "for-variable-does-not-outlive-loop": ("let i = 10\nfor i in 3 {\n  println(i)\n}\nprintln(i)\n", "0\n1\n2\n10\n"),
     "for-variable-invisible-after-loop": ("for j in 2 {\n  println(j)\n}\nprintln(j)\n", None),
+    "extend-method-parameters-do-not-leak": ("type Pt = {\n  v: int\n}\nextend Pt {\n  fn a(self, k: int) -> int = self.v + k\n  fn b(self) -> int = self.v + k\n}\nprintln(Pt(1).b())\n", None),
+    "implement-method-parameters-do-not-leak": ("type Pt = {\n  v: int\n}\ninterface Two {\n  fn one(self, k: int) -> int\n  fn two(self) -> int\n}\nimplement Two for Pt {\n  fn one(self, k: int) -> int = self.v + k\n  fn two(self) -> int = self.v + k\n}\nprintln(Pt(1).two())\n", None),
+    "extend-methods-see-their-own-parameters": ("type Pt = {\n  v: int\n}\nextend Pt {\n  fn a(self, k: int) -> int = self.v + k\n  fn b(self, k: int) -> int = self.v * k\n}\nprintln(Pt(3).a(2) .. \" \" .. Pt(3).b(2))\n", "5 6\n"),
 }
 
 
